@@ -153,6 +153,8 @@ var c10Stmts = []string{
 	`{ L: for { x := Q.New(); x.F = 1; if x.F > 0 { break L }; continue L }; goto E; E: }`,
 	`{ new := func() int { return 0 }; _ = new(); make := func(a, b int) *Q.T { return nil }; make(1, 2).F = 1; { new := func(a, b int) int { return a }; _ = new(1, 2) } }`,
 	`{ x := Q.New(); switch x.F = 1; x.F { case 1: x.F = 2; fallthrough; default: x.F++ }; if x.F = 3; x.F > 0 { x.F = 4 } else if x.M = 1; true { x.F = 5 } else { x.F = 6 } }`,
+	`{ type E = error; var e E; _ = e; type E2 = E; var e2 E2 = nil; _ = e2; type E3 error; var e3 E3; _ = e3; _ = []error{nil}; _ = map[error]E{}; _ = struct{ error }{}; var f func(error) E; _ = f; _ = new(error); _ = new(E); _ = (*error)(nil); _ = error(nil); _ = E(nil); fn := error.Error; _ = fn; type A = any; _ = A(1); _ = new(A); _ = []A{1}; type CA = comparable; type CI interface{ comparable; error }; var x Q.T; x.F = 1 }`,
+	`{ _ = len("a"); _ = cap([]int{}); _ = min(1, 2); _ = max(1, 2); _ = real(1i); _ = complex(1, 2); print(); println(); _ = recover(); defer panic(nil); _ = nil == error(nil); _ = true; const c = iota; _ = c; type B = byte; type R = rune; _ = B(1) == 2; _ = R(1) == 2; _ = []B("a"); _ = new(B); var s string; _ = s; _ = Q.T{F: len(s)}; _ = new(Q.T) }`,
 }
 
 type c10Position struct {
@@ -1279,6 +1281,129 @@ type T struct{ F int }
 			// //line directives combined with @ignore comments in every placement (generated code carries both)
 			{"u", "h.go", "// @ignore TONL\npackage u\n\nimport \"PREFIX/d\"\n\n//line gen.tmpl:9000\nfunc lineAndIgnore() {\n\tvar t *d.T\n\tt.F = 1 // @ignore IMM01\n\t// @ignore IMM\n\tt.F = 2\n//line gen.tmpl:1\n\tt.F = 3 // @ignore ALL\n}\n\n//line other.tmpl:70000\nvar afterLine = d.T{} // @ignore CTOR01\n\n// @ignore CTOR\n//line third.tmpl:5\nvar afterLine2 = d.T{}\n"},
 		}},
+		{"universe-objects", []c10P2File{{"d", "d.go", `package d
+
+import "unsafe"
+
+// Failure is an alias of a predeclared named type (its TypeName has no package).
+// @immutable
+// @constructor NewFailure
+// @testonly
+// @packageonly x
+// @implements error
+type Failure = error
+
+// Cmp aliases the other predeclared named type.
+// @packageonly x
+type Cmp = comparable
+
+// Any aliases any.
+// @testonly
+type Any = any
+
+// Ptr aliases unsafe.Pointer.
+// @immutable
+// @packageonly x
+type Ptr = unsafe.Pointer
+
+// W embeds error.
+// @immutable
+// @constructor NewW
+// @testonly
+// @packageonly x
+// @implements error
+// @implements &error
+type W struct {
+	error
+	// @mutable
+	Any
+	P Ptr
+	F int
+}
+
+// E3 is defined over error.
+// @immutable
+// @implements error
+type E3 error
+
+// @constructor NewFailure
+func NewFailure() Failure { return nil }
+
+func NewW() *W { return &W{} }
+
+// Err is restricted.
+// @testonly
+// @packageonly x
+func Err(e error) Failure { return e }
+
+func C[V Cmp](v V) V { return v }
+
+func own() {
+	var f Failure
+	_ = f
+	_ = Err(nil)
+	w := W{}
+	w.error = nil
+	w.Any = 1
+	w.F = 1
+	w.P = nil
+	_ = w.Error
+	_ = C(1)
+	var e3 E3
+	_ = e3
+	_ = unsafe.Sizeof(w)
+	_ = (*W)(unsafe.Pointer(&w))
+}
+`}, {"u", "u.go", `package u
+
+import (
+	"unsafe"
+
+	"PREFIX/d"
+)
+
+type Failure = error
+
+type Failure2 = d.Failure
+
+type Cmp = comparable
+
+type local struct {
+	error
+	d.Failure
+}
+
+var G d.Failure
+
+var G2 Failure = d.Err(nil)
+
+func use(e error, f d.Failure, p d.Ptr) (Failure, d.Any) {
+	var x d.Failure
+	_ = x
+	var y Failure
+	_ = y
+	var z Failure2
+	_ = z
+	_ = d.Err(e)
+	w := d.W{}
+	w.F = 1
+	w.P = unsafe.Pointer(&w)
+	w.Any = nil
+	_ = new(d.W)
+	_ = new(d.Failure)
+	_ = new(Failure)
+	_ = []d.Failure{nil}
+	_ = d.C[int]
+	_ = d.E3(nil)
+	var e3 d.E3
+	_ = e3
+	_ = local{}
+	_ = unsafe.Pointer(nil)
+	_ = d.Ptr(nil)
+	_ = unsafe.Sizeof(p)
+	return nil, nil
+}
+`}}},
 		{"shadowing", []c10P2File{{"d", "d.go", `package d
 
 // @immutable
